@@ -433,7 +433,7 @@ def write_evidence(pid, P, tier, seed, items, functions, solver_s, xcheck, struc
 
 GLOBAL_TRUSTED = [
     "pyvc itself (AST -> VC generator in /verif/pyvc, ~2k lines, unverified; self-tested by seeded mutants and concrete replays)",
-    "z3 5.1 (python3-vt); thorough tier re-discharges through SMT-LIB with /usr/bin/cvc5 1.0 and /usr/bin/z3 4.8",
+    "z3 5.1 (python3-vt); /usr/bin/cvc5 1.0 as second back end on the same SMT-LIB text for obligations z3 leaves unknown (only `unsat` is taken from it; by_backend says which obligations); thorough tier re-discharges everything through SMT-LIB with cvc5 and /usr/bin/z3 4.8",
     "Numba compiles the Python semantics pyvc encodes (prange sequential, no parallel=True); CPython/NumPy semantics as listed in DESIGN 2.2",
 ]
 GLOBAL_ASSUMPTIONS = [
